@@ -259,7 +259,7 @@ def set_block(self, block_index: int, *args: SimpleNamespace) -> None:
             raise RuntimeError('First gradient in the the first block has to start at 0.')
 
         if (
-            grad_to_check.stop[1] > self.system.max_slew * self.system.grad_raster_time
+            abs(grad_to_check.stop[1]) > self.system.max_slew * self.system.grad_raster_time
             and abs(grad_to_check.stop[0] - duration) > 1e-7
         ):
             raise RuntimeError("A gradient that doesn't end at zero needs to be aligned to the block boundary.")
